@@ -317,3 +317,92 @@ def rewrite_files_in(dirpath, file_patterns, vj):
             return exc_name(ex)
     finally:
         os.chdir(old)
+
+
+# ---- CLI decision logic (C01, C09) ---------------------------------------------
+
+class _Tags:
+    """patches vcs.get_tags to serve canned tag lists (global / branch)"""
+
+    def __init__(self, global_tags, branch_tags=None):
+        self.g = list(global_tags)
+        self.b = list(branch_tags if branch_tags is not None else global_tags)
+
+    def __enter__(self):
+        from bumpver import vcs, config
+        self._vcs = vcs
+        self._orig = vcs.get_tags
+        vcs.get_tags = lambda fetch, scope: list(self.b) if scope == config.TagScope.BRANCH else list(self.g)
+
+    def __exit__(self, *a):
+        self._vcs.get_tags = self._orig
+
+
+def _cfg(pattern, cfgv, scope):
+    from bumpver import config
+    return config.Config(current_version=cfgv, version_pattern=pattern, pep440_version="", commit_message="", tag_message="",
+                         tag_scope=config.TagScope(scope), pre_commit_hook="", post_commit_hook="", commit=False, tag=False,
+                         push=False, is_new_pattern=("{" not in pattern and "}" not in pattern), file_patterns={})
+
+
+def _guard(fn):
+    import re
+    _quiet()
+    try:
+        return fn()
+    except re.error:
+        return {"unsupported": 1}
+    except SystemExit as ex:
+        return {"err": "SystemExit(%s)" % ex.code}
+    except (TypeError, ValueError, OverflowError, KeyError, IndexError, AssertionError) as ex:
+        return {"err": exc_name(ex)}
+
+
+def latest_tag(pattern, tags, today):
+    from bumpver import cli
+    with _Today(today), _Tags(tags):
+        return _guard(lambda: {"ok": cli.get_latest_vcs_version_tag(_cfg(pattern, "0", "global"), fetch=False)})
+
+
+def start_version(scope, pattern, cfgv, tags, today):
+    from bumpver import cli
+    with _Today(today), _Tags(tags, tags):
+        return _guard(lambda: {"ok": cli._update_cfg_from_vcs(_cfg(pattern, cfgv, scope), fetch=False).current_version})
+
+
+def gate(pattern, old, new, unique, tags, today):
+    from bumpver import cli
+    with _Today(today), _Tags(tags):
+        return _guard(lambda: {"ok": bool(cli._is_valid_version(pattern, old, new, unique=unique))})
+
+
+def cli_test(version_str, pattern, flags, date_given, date, today, set_version):
+    import sandbox
+    args = ["test", version_str, pattern]
+    for k in ("major", "minor", "patch"):
+        if flags[k]:
+            args.append("--" + k)
+    if flags["tag"] is not None:
+        args += ["--tag", flags["tag"]]
+    if flags["tag_num"]:
+        args.append("--tag-num")
+    if flags["pin_increments"]:
+        args.append("--pin-increments")
+    if flags["pin_date"]:
+        args.append("--pin-date")
+    if date_given:
+        args += ["--date", "%04d-%02d-%02d" % tuple(date)]
+    if set_version is not None:
+        args += ["--set-version", set_version]
+    code, out, exc = sandbox.run_cli(args, "/", today=dt.date(*today))
+    if exc == "other:error" or (exc and "error" in exc):
+        return {"unsupported": 1}
+    if code != 0:
+        return {"exit": 1}
+    new = pep = None
+    for line in out.split("\n"):
+        if line.startswith("New Version: "):
+            new = line[len("New Version: "):]
+        elif line.startswith("PEP440     : "):
+            pep = line[len("PEP440     : "):]
+    return {"exit": 0, "new": new, "pep440": pep if pep is not None else new}
